@@ -51,7 +51,7 @@ RULE = (
     "/ exception / message_type / action_status / task_uuid2, wrong type, validator-rejected, forValue "
     "mismatch, not JSON-encodable value, non-text field name}; tracebacks {none, flushed, unflushed, "
     "flushed for another class}; part 2: test outcomes {pass, fail, error, skip, failing assertion "
-    "callback, invalid message} x previous default logger {original, other MemoryLogger} x {single, two "
+    "callback, invalid message, test re-swaps the default logger and passes / errors} x previous default logger {original, other MemoryLogger} x {single, two "
     "in sequence, nested}; non-trivial = message with a deviation or a non-passing test"
 )
 ASSUMPTIONS = [
@@ -130,7 +130,7 @@ def deviations(defn, kind):
 
 def cases(unit, tier):
     if unit[0] == "tests":
-        for outcome in range(6):
+        for outcome in range(len(OUTCOMES)):
             for prev in (0, 1):
                 for arrangement in ("single", "sequence", "nested"):
                     for deco in ("capture", "validate"):
@@ -275,7 +275,8 @@ def _log_typed(MT, logger, good):
         swap_logger(prev)
 
 
-OUTCOMES = ["pass", "fail", "error", "skip", "assertion-callback-fails", "invalid-message"]
+OUTCOMES = ["pass", "fail", "error", "skip", "assertion-callback-fails", "invalid-message",
+            "pass-after-reswapping-logger", "error-after-reswapping-logger"]
 TYPED = MessageType("c14:t", [Field.for_types("n", [int], "")], "")
 
 
@@ -305,6 +306,11 @@ def run_test(outcome, prev_kind, arrangement, deco):
             else:
                 logger.write({"message_type": "c14:inside", "task_uuid": "u", "task_level": [1], "timestamp": 1.0})
             o = OUTCOMES[outcome]
+            if o.endswith("after-reswapping-logger") and deco == "capture":
+                # the test installs its own default logger and leaves without putting the captured one back
+                swap_logger(MemoryLogger())
+                if o.startswith("error"):
+                    raise RuntimeError("test error")
             if o == "fail":
                 test.fail("expected failure")
             if o == "error":
@@ -367,6 +373,8 @@ def run_test(outcome, prev_kind, arrangement, deco):
         "skip": (0, 0, n),
         "assertion-callback-fails": (n, 0, 0),
         "invalid-message": (0, n, 0),
+        "pass-after-reswapping-logger": (0, 0, 0),
+        "error-after-reswapping-logger": (0, n if deco == "capture" else 0, 0),
     }[o]
     got = (counts["failures"], counts["errors"], counts["skipped"])
     if arrangement == "nested":
